@@ -29,6 +29,10 @@ def SIGTERM : Nat := 15
 def SIGCONT : Nat := 18
 def SIGSTOP : Nat := 19
 
+/-- number of CPUs a `cpu_set_t` holds (CPU_SET(3): CPU_SETSIZE, "currently 1024") — what
+    `sched_setaffinity` can be asked for at most; the kernel keeps the CPUs the process may run on -/
+def CPU_SETSIZE : Nat := 1024
+
 /-- the signal each method is documented to send -/
 def sigNumber : SigMethod → Nat
   | .send s => s
@@ -49,7 +53,8 @@ def ArgOK : Call → EffKind → List Int → Prop
   | .setter _ .ionice [c], .set .ionice, a => a = [c, 0]
   | .setter _ .ionice [c, v], .set .ionice, a => a = [c, v]
   | .setter _ .rlimit args, .set .rlimit, a => a = args
-  | .setter _ .affinity cpus, .set .affinity, a => ∀ c, c ∈ a ↔ c ∈ cpus
+  | .setter _ .affinity [], .set .affinity, a => ∀ c : Int, c ∈ a ↔ (0 ≤ c ∧ c < (CPU_SETSIZE : Int))   -- "all eligible CPUs"
+  | .setter _ .affinity (c0 :: cs), .set .affinity, a => ∀ c, c ∈ a ↔ c ∈ c0 :: cs
   | _, _, _ => False
 
 /-- what the driver prints as "requested": kind and raw values (the harness turns an affinity list into a set) -/
@@ -59,7 +64,8 @@ def wanted : Call → Option (EffKind × List Int)
   | .setter _ .ionice [c] => some (.set .ionice, [c, 0])
   | .setter _ .ionice [c, v] => some (.set .ionice, [c, v])
   | .setter _ .rlimit args => some (.set .rlimit, args)
-  | .setter _ .affinity cpus => some (.set .affinity, cpus)
+  | .setter _ .affinity [] => some (.set .affinity, (List.range CPU_SETSIZE).map Int.ofNat)
+  | .setter _ .affinity (c0 :: cs) => some (.set .affinity, c0 :: cs)
   | _ => none
 
 /-- the calls C01 speaks about: signals and the setting forms -/
